@@ -462,12 +462,14 @@ def rule_partial(model):
             # the view with constant loops unrolled has too many paths
             # here: the function as written (loops kept) is judged instead
             # -- together with the helpers that had been inlined into it
-            if not fell_back:
-                seen_w = {f.where for f in inl_funcs}
-                work += [f for w, f in plain_funcs.items()
-                         if w not in seen_w]
+            seen_w = {f.where for f in inl_funcs} | set(fell_back)
             fell_back.append(fi.where)
             fi = plain_funcs[fi.where]
+            for h in model.closure(fi):
+                if h is not fi and h.where in plain_funcs and \
+                        h.where not in seen_w:
+                    work.append(plain_funcs[h.where])
+                    fell_back.append(h.where)
             dicts = _param_dicts(model, fi)
             if not dicts:
                 continue
@@ -1682,6 +1684,11 @@ def rule_contiguous_params(model):
                 is_pat = False
                 if isinstance(recv, ast.Name):
                     d = model.param_default(f, recv.id)
+                    if isinstance(d, ast.Name):
+                        # parmre=_PARM_RE: a module-level pattern
+                        g = model.resolve_global(f.module, d.id)
+                        if g and g[0] == 'value' and g[1]:
+                            d = list(g[1])[0]
                     defs = [d] if d is not None else [
                         x for x in model.local_defs(f, recv.id)
                         if isinstance(x, ast.AST)]
@@ -1708,10 +1715,10 @@ def rule_contiguous_params(model):
                               'recognised attributes is skipped, so '
                               'malformed or unsupported attributes are '
                               'accepted silently', node=c, ctx=f)
-    if n < 4:
+    if n < 2:
         raise AnalysisError(f'C06.R14: only {n} pattern applications found '
                             'in the attribute parsers')
-    r.floor = 4
+    r.floor = 2
     return r
 
 
